@@ -187,17 +187,55 @@ pub fn run(ctx: &mut Ctx) {
 
     // ---- malformed stream: the decoder answers Ok or Err, never panics or aborts
     let mut g_texts = vec![];
-    let n_garbage = if ctx.thorough { 60_000 } else { 4_000 };
-    let valid: Vec<Vec<u8>> = items.iter().take(40).map(|(_, t)| to_bytes(t).0).collect();
+    let n_garbage: usize = if ctx.thorough { 60_000 } else { 4_000 };
+    // valid encodings from across the whole list (examples first, applied templates with UTxO sets later)
+    let step = (items.len() / 120).max(1);
+    let mut valid: Vec<Vec<u8>> = items.iter().step_by(step).take(160).map(|(_, t)| to_bytes(t).0).collect();
+    // ... and the first dozen that hold a resolved UTxO set
+    valid.extend(items.iter().map(|(_, t)| to_bytes(t).0).filter(|b| b.windows(7).any(|w| w == b"UtxoSet")).take(12));
+    ctx.meta.insert("valid_encodings_with_utxo_set".into(), serde_json::json!(valid.iter().filter(|b| b.windows(7).any(|w| w == b"UtxoSet")).count()));
     let mut kinds: BTreeMap<String, (u64, u64, u64)> = BTreeMap::new();
     let handle = std::thread::Builder::new().stack_size(256 << 20).spawn({
         let seed = ctx.seed;
         move || {
             let mut r = Rng::new(seed ^ 0xBAD);
             let mut out: Vec<(String, u8)> = vec![];
+            // every list / map header of the encodings that hold a UTxO set, one at a time (up to 12 encodings)
+            let has_set = |b: &Vec<u8>| b.windows(7).any(|w| w == b"UtxoSet");
+            for base in valid.iter().filter(|b| has_set(b)).take(12) {
+                for k in 0..base.len() {
+                    if !((0x80..=0x97).contains(&base[k]) || (0xa0..=0xb7).contains(&base[k])) {
+                        continue;
+                    }
+                    let mut b = base.clone();
+                    b[k] = if b[k] < 0xa0 { 0x9b } else { 0xbb };
+                    for (j, x) in [0x80u8, 1, 2, 3, 4, 5, 6, 7].into_iter().enumerate() {
+                        b.insert(k + 1 + j, x);
+                    }
+                    let res = std::panic::catch_unwind(|| from_bytes(&b, TirVersion::V1Beta0).map(|_| ()).map_err(|e| e.to_string()));
+                    out.push(("length_lie_sweep".to_string(), match res { Err(_) => 2, Ok(Err(_)) => 1, Ok(Ok(())) => 0 }));
+                }
+            }
+            let n_garbage = n_garbage.saturating_sub(out.len());
             for i in 0..n_garbage {
                 let base = r.pick(&valid).clone();
-                let (tag, bytes, version): (&str, Vec<u8>, &str) = match r.below(9) {
+                let (tag, bytes, version): (&str, Vec<u8>, &str) = match r.below(11) {
+                    9 | 10 => {
+                        // a list or map header of a valid encoding replaced by one that declares an
+                        // enormous length (8-byte count with the top bit set): the content that follows is intact
+                        let mut b = base.clone();
+                        let heads: Vec<usize> = (0..b.len()).filter(|&k| (0x80..=0x97).contains(&b[k]) || (0xa0..=0xb7).contains(&b[k])).collect();
+                        if !heads.is_empty() {
+                            let k = *r.pick(&heads);
+                            b[k] = if b[k] < 0xa0 { 0x9b } else { 0xbb };
+                            let mut count = r.bytes(8);
+                            count[0] |= 0x80;
+                            for (j, x) in count.into_iter().enumerate() {
+                                b.insert(k + 1 + j, x);
+                            }
+                        }
+                        ("length_lie", b, "v1beta0")
+                    }
                     0 => { let l = r.below(64) as usize; ("random", r.bytes(l), "v1beta0") }
                     1 => { let mut b = base.clone(); if !b.is_empty() { let k = r.below(b.len() as u64) as usize; b[k] ^= 1 << r.below(8); } ("bit_flip", b, "v1beta0") }
                     2 => { let mut b = base.clone(); let k = r.below(b.len() as u64 + 1) as usize; b.truncate(k); ("truncated", b, "v1beta0") }
@@ -226,7 +264,7 @@ pub fn run(ctx: &mut Ctx) {
         let must_fail = tag == "retired_version" || tag == "unknown_version";
         g_texts.push(format!("(mk_gcase {} {})", gal::n(*kind), gal::b(must_fail)));
     }
-    let completed = garbage.len() == n_garbage;
+    let completed = garbage.len() >= n_garbage;
     if !completed {
         // the decoder thread died (abort / stack exhaustion): report as a failing case
         g_texts.push("(mk_gcase 2%N false)".to_string());
@@ -259,6 +297,6 @@ pub fn run(ctx: &mut Ctx) {
     ctx.meta.insert("samples".into(), serde_json::json!(samples));
     ctx.meta.insert(
         "rule".into(),
-        serde_json::json!("every transaction lowered from /repo/examples/*.tx3 plus generated templates (typed trees of depth 1..6 and the untyped stream, every expression and block variant), half of them after apply_args/apply_inputs/apply_fees so that Param::Set, UTxO sets and asset maps occur; malformed stream: random bytes, bit flips and truncations of valid encodings, array / map / tag nesting bombs up to depth 20000, huge length heads, retired and unknown version strings"),
+        serde_json::json!("every transaction lowered from /repo/examples/*.tx3 plus generated templates (typed trees of depth 1..6 and the untyped stream, every expression and block variant), half of them after apply_args/apply_inputs/apply_fees so that Param::Set, UTxO sets and asset maps occur; malformed stream: random bytes, bit flips and truncations of valid encodings, list / map headers of valid encodings replaced by ones declaring an enormous length, array / map / tag nesting bombs up to depth 20000, huge length heads, retired and unknown version strings"),
     );
 }
